@@ -38,10 +38,12 @@ def split_patterns(job, size=256):
     return out
 
 
-def judge_emits(chk, recs, name="emits"):
-    """recs: list of dicts with t, status, exc, prog, bits, fixed, expects -> {t: verdict}"""
+def judge_emits(chk, recs, name="emits", chunk=256):
+    """recs: list of dicts with t, status, exc, prog, bits, fixed, expects -> {t: verdict}.
+    A record with many patterns is split into several TLC records (p0..p1) so that workers share it."""
     if not recs:
         return {}
+    lines = []
     for r in recs:
         r.setdefault("prog", {"vars": [], "cons": [], "keys": []})
         r.setdefault("bits", [])
@@ -51,12 +53,22 @@ def judge_emits(chk, recs, name="emits"):
         for b in r["bits"]:
             b.setdefault("isint", False)
             b.setdefault("neg", False)
+        n = len(r["expects"])
+        for p0 in range(0, max(n, 1), chunk):
+            lines.append(dict(r, p0=p0, p1=min(n, p0 + chunk) - 1))
     path = chk.dir / f"{name}.ndjson"
-    write_ndjson(path, recs)
+    write_ndjson(path, lines)
     res = run_tlc("Trace_Emit", "Trace_Emit", workdir=chk.dir, env={"TRACE_FILE": str(path)}, timeout=3000)
     chk.add_tlc(res)
-    out = {r["t"]: r for r in res.records}
-    if len(out) != len(recs):
-        raise MachineryError(f"{len(recs)} emitted programs but {len(out)} verdicts")
+    if len(res.records) != len(lines):
+        raise MachineryError(f"{len(lines)} emitted-program records but {len(res.records)} verdicts")
+    out = {}
+    for v in sorted(res.records, key=lambda v: (v["t"], v["p0"])):
+        cur = out.get(v["t"])
+        if cur is None or (cur["verdict"] == "ok" and v["verdict"] != "ok"):
+            nb = (cur or {}).get("nbad", 0)
+            out[v["t"]] = dict(v, nbad=v["nbad"] + nb)
+        elif v["verdict"] != "ok":
+            cur["nbad"] += v["nbad"]
     chk.traces += len(recs)
     return out
